@@ -271,7 +271,7 @@ def print_assumptions(module, thms):
         if "Closed under the global context" in body:
             res[name] = "closed"
         else:
-            ax = re.findall(r"^([A-Za-z0-9_.']+)\s*:", body, re.M)
+            ax = [a for a in re.findall(r"^([A-Za-z0-9_.']+)\s*:", body, re.M) if a != "Axioms"]
             res[name] = ax
     return res, out
 
